@@ -45,6 +45,22 @@ Theorem single_match_is_found disk lits n nm bytes :
 Proof. exact (ModFSProofs.single_match_is_found disk lits n nm bytes). Qed.
 Print Assumptions single_match_is_found.
 
+(* no file of the disk carries the literals: NotFound (any disk) *)
+Theorem no_match_is_not_found disk lits :
+  (forall n nm bytes, nth_error disk n = Some (nm, bytes) -> map (fun c => name_lit (norm_name c)) (comps nm) <> map Some lits) ->
+  search lits (tree_of_disk disk) = NotFound.
+Proof. exact (ModFSProofs.no_match_is_not_found disk lits). Qed.
+Print Assumptions no_match_is_not_found.
+
+(* two different files of a well-formed disk carry the literals: Ambiguous - with single_match_is_found and no_match_is_not_found the three answers are characterised by the number of matching files *)
+Theorem two_matches_are_ambiguous disk lits n1 nm1 bytes1 n2 nm2 bytes2 :
+  files_wf (disk_files disk) -> n1 <> n2 ->
+  nth_error disk n1 = Some (nm1, bytes1) -> map (fun c => name_lit (norm_name c)) (comps nm1) = map Some lits ->
+  nth_error disk n2 = Some (nm2, bytes2) -> map (fun c => name_lit (norm_name c)) (comps nm2) = map Some lits ->
+  search lits (tree_of_disk disk) = Ambiguous.
+Proof. exact (ModFSProofs.two_matches_are_ambiguous disk lits n1 nm1 bytes1 n2 nm2 bytes2). Qed.
+Print Assumptions two_matches_are_ambiguous.
+
 (* the whole built-in on literal words (not the built-in marker 5): nothing is evaluated, the tree is searched, the file found goes to the same loader as a path string *)
 Theorem import_by_literals rec sp argv ip h w h1 l0 lits p id nm bytes :
   runG rec (option (list Z)) ip h w (peek_lits argv) = DoneG h1 w (inl (Some (l0 :: lits))) 0 -> argv <> [] -> l0 <> 5%Z ->
